@@ -1,7 +1,7 @@
 (* Prop_C15.v — property theorems for C15, and nothing else: each statement is closed
    by `exact <lemma>` and followed by Print Assumptions. *)
 From Dig Require Import Base Sig State Graph GraphProofs Register Resolve Run Spec Check
-  ErrTable Err ErrTableCheck GoTypes Parse RunRaw P_Parse.
+  ErrTable Err ErrTableCheck GoTypes Parse RunRaw Cases P_Parse P_C15.
 
 (* ---- C15: the evaluator sees a signature only through its flattened leaves
         and build sequence (Resolve.call_ctor / invoke use sig_leaves,
@@ -23,3 +23,20 @@ Theorem C15_variadic_partial : forall ts v outs outs',
   new_param_list (mkFunc (ts ++ [v]) outs true) = new_param_list (mkFunc ts outs' false).
 Proof. exact P_Parse.C15_variadic_dropped. Qed.
 Print Assumptions C15_variadic_partial.
+
+(* ---- C15 on runs: histories whose signatures are equivalent encodings
+        (equal flattened leaves, build order and result leaves) have IDENTICAL
+        runs: verdicts, executions, arguments, callbacks ---- *)
+Theorem C15_holds : forall cfg b du h1 h2, hist_equiv h1 h2 -> run cfg b du h1 = run cfg b du h2.
+Proof. exact P_C15.C15_run_equal. Qed.
+Print Assumptions C15_holds.
+
+Theorem C15_wrap_params_equivalent : forall ps1 ps2 ps3 rs e, P_Parse.no_soft ps2 ->
+  sig_equiv (mkSig (ps1 ++ ps2 ++ ps3) rs e) (mkSig (ps1 ++ [PObj ps2] ++ ps3) rs e).
+Proof. exact P_C15.wrap_params_equiv. Qed.
+Print Assumptions C15_wrap_params_equivalent.
+
+Theorem C15_wrap_results_equivalent : forall ps rs1 rs2 rs3 e,
+  sig_equiv (mkSig ps (rs1 ++ rs2 ++ rs3) e) (mkSig ps (rs1 ++ [RObj rs2] ++ rs3) e).
+Proof. exact P_C15.wrap_results_equiv. Qed.
+Print Assumptions C15_wrap_results_equivalent.
